@@ -91,7 +91,10 @@ def run_function_case(task):
                 if ob.model is not None:
                     r['model'] = str(ob.model)[:1500]
                     from .replay import model_args
-                    ma = model_args(E, ob.model)
+                    try:
+                        ma = model_args(E, ob.model)
+                    except Exception:
+                        ma = None              # a counter-model that cannot be turned into concrete arguments: no replay, still a failure
                     if ma is not None:
                         r['replay_args'] = ma
                         r['replay_case'] = exportable(c, case)
